@@ -56,6 +56,13 @@ class C10(Harness):
                 if k == "member-selffh" and not any(o.startswith("UP") for o in prog):
                     continue  # (same as "member" there)
                 out.append({"name": "%s-%s" % (k, "".join(prog)), "kind": k, "prog": prog, "cost": len(prog)})
+        # a training series of integer dtype (counts), later batches real-valued
+        for k in ("naive-last", "naive-mean-wlnone"):
+            for prog in (["U1", "P"], ["U0", "P"], ["UP0"]):
+                out.append({"name": "%s-inty1-%s" % (k, "".join(prog)), "kind": k, "prog": prog, "int_y1": True, "cost": len(prog)})
+        # an update_predict that is aborted by an exception at a later moving cutoff: the own cutoff is still restored
+        for prog in (["UPF0", "P"], ["UPF1", "P"]):
+            out.append({"name": "member-failing-%s" % "".join(prog), "kind": "member-failing", "prog": prog, "cost": 2})
         return out
 
     def inputs(self, ctx, cell):
@@ -63,7 +70,7 @@ class C10(Harness):
         n1 = ctx.fresh_int("n1")
         ctx.assume((n1 >= 2) & (n1 <= 3))
         n1 = int(n1)
-        inp = {"s0": ctx.fresh_int("s0"), "y1": fresh_reals(ctx, "a", n1), "batches": [], "fh_in_fit": bool(ctx.fresh_bool("fh_in_fit"))}
+        inp = {"s0": ctx.fresh_int("s0"), "y1": (fresh_ints if cell.get("int_y1") else fresh_reals)(ctx, "a", n1), "batches": [], "fh_in_fit": bool(ctx.fresh_bool("fh_in_fit"))}
         K = ctx.fresh_int("K")
         ctx.assume((K >= 1) & (K <= 2))
         hs = fresh_ints(ctx, "h", int(K))
@@ -94,7 +101,11 @@ class C10(Harness):
             else:
                 ctx.assume((m >= 1) & (m <= 2))
             m = int(m)
-            o = inp["ov"] if (first and op != "UP1") else 0  # (a refitting update_predict over an overlapping stretch repeats a cutoff label: outside)
+            if op.startswith("UPF"):
+                fs = ctx.fresh_int("fail_step")  # the moving cutoff (counted from the own one) at which the member cannot forecast
+                ctx.assume((fs >= 1) & (fs <= m - inp["fh_up"][-1]))
+                inp["fail_step"] = int(fs)
+            o = inp["ov"] if (first and op not in ("UP1", "UPF0", "UPF1")) else 0  # (a refitting update_predict over an overlapping stretch repeats a cutoff label: outside)
             inp["batches"].append({"ov": o, "vals": fresh_reals(ctx, "b%d_" % i, m)})
             first = False
         return inp
@@ -111,6 +122,16 @@ class C10(Harness):
         Member = make_member(W, log)
         if kind == "member":
             return Member(p=1)
+        if kind == "member-failing":
+            class Failing(Member):
+                FAIL_AT = None
+
+                def _predict(self, fh, X=None, return_pred_int=False, alpha=None):
+                    if Failing.FAIL_AT is not None and bool(self.cutoff == Failing.FAIL_AT):
+                        raise RuntimeError("stub: cannot forecast from this cutoff")
+                    return Member._predict(self, fh, X, return_pred_int, alpha)
+
+            return Failing(p=1)
         if kind == "member-selffh":
             class SelfFh(Member):
                 """like the trend / stacking forecasters: _predict reads the stored horizon instead of its argument"""
@@ -186,6 +207,18 @@ class C10(Harness):
                         p = f.update_predict_single(yb, fh, update_params=up)
                         twin.update_predict_single(yb, fh, update_params=up)
                         rec["pred"] = [L(p.index), L(p.values)]
+                    elif op.startswith("UPF"):
+                        fh_up = np.array(inp["fh_up"])
+                        cv = sp.SlidingWindowSplitter(fh=fh_up, window_length=1, step_length=1, start_with_window=False)
+                        rec["cutoff_before"] = S(f.cutoff)
+                        type(f).FAIL_AT = f.cutoff + inp["fail_step"]
+                        try:
+                            f.update_predict(yb, cv, update_params=up)
+                            rec["aborted"] = False
+                        except RuntimeError:
+                            rec["aborted"] = True
+                        type(f).FAIL_AT = None
+                        nxt = start  # (what was absorbed before the failure is not judged)
                     else:
                         fh_up = np.array(inp["fh_up"])
                         cv = sp.SlidingWindowSplitter(fh=fh_up, window_length=1, step_length=1, start_with_window=False)
@@ -245,7 +278,7 @@ class C10(Harness):
             if kind == "naive-mean-wlnone":
                 w = [mem[k] for k in offs[-flen:]]
                 return sum(w) / len(w)
-            if kind in ("member", "member-selffh"):
+            if kind in ("member", "member-selffh", "member-failing"):
                 return F(1, c, c + h)
             if kind == "ensemble":
                 return (mem[offs[-1]] + F(2, c, c + h)) / 2
@@ -280,7 +313,14 @@ class C10(Harness):
             if op == "P":
                 have_fh = True
                 check_pred(st["pred"], cutoff_off, fitted_len, last_mode)
-                check_state(st["state"])
+                if kind != "member-failing":
+                    check_state(st["state"])
+                continue
+            if op.startswith("UPF"):
+                bi += 1
+                have_fh = True
+                P.check("update_predict-restores-cutoff", st["aborted"], {"what": "the stub's failure did not surface"})
+                P.eq("update_predict-restores-cutoff", st["state"]["cutoff"], st["cutoff_before"], {"what": "after an aborted update_predict"})
                 continue
             if op == "PA":
                 # the remembered absolute horizon still means the same time points after the cutoff has moved
